@@ -14,8 +14,10 @@
     * every pressure-base quantity is the same `v2p` with the same pressure field and the same target grid.
   Not proved (numerical analysis about qha's scheme on arbitrary data; monitored by harness/c06.py):
     * the size of the interpolation error for quantities that are not cubic in P,
-    * `P(T, V(T,P)) = P` and `V(T,P)` decreasing in P for non-polynomial isotherms
-      (`c06_volume_roundtrip_affine_partial` gives the affine case).
+    * `P(T, V(T,P)) = P` and `V(T,P)` decreasing in P for isotherms along which V is NOT a cubic polynomial of P
+      (`c06_volume_roundtrip_cubic`, `c06_volumes_tp_roundtrip_cubic`: exact whenever V is a polynomial of degree ≤ 3 in P
+      along the isotherm — the model interpolates V over the abscissa P; `c06_volume_roundtrip_affine_partial` is the
+      affine special case; `c06_roundtrip_inexact_for_cubic_in_V`: P an invertible cubic of V is NOT enough).
 -/
 import CijProofs.Lemmas.V2P
 import Generated.PressureBaseSpec
@@ -270,6 +272,110 @@ theorem c06_volume_roundtrip_affine_partial (r s : α) (hr : r ≠ 0) (p desired
   have : ((fun v => s + r * v) ∘ fun x => (x - s) / r) = id := by
     funext x; simp only [Function.comp, id]; field_simp; ring
   rw [this, List.map_id]
+
+/-- **Round trip, cubic case.**  `Pf` is the isotherm `V ↦ P(T, V)` (ANY function), `vs` the volume grid, so the tabulated
+    pressures are `vs.map Pf` (strictly increasing along the grid, ≥ 4 volumes).  If along this isotherm the volume is a
+    polynomial of degree ≤ 3 of the pressure — `g(P) = a + bP + cP² + dP³` with `g(Pf v) = v` at the grid volumes and
+    `Pf (g x) = x` at the requested pressures (`g` is the inverse function of the isotherm there) — then for every requested
+    pressure inside the tabulated range the reported volume `v2p(V, P_tv, p)` is EXACTLY `g(p)`, i.e. the volume at which the
+    pressure equals the requested one: `P(T, V(T,P)) = P`.
+    This is the exactness class of the scheme: `v2p` interpolates the ordinate (here V) over the ABSCISSA P by the 4-point
+    Lagrange rule, which reproduces cubics in P (`c06_v2p_exact_cubic`). -/
+theorem c06_volume_roundtrip_cubic (a b c d : α) (Pf : α → α) (vs desired : List α) (hn : 4 ≤ vs.length)
+    (hs : StrictIncr (vs.map Pf))
+    (hgrid : ∀ v ∈ vs, a + b * Pf v + c * Pf v ^ 2 + d * Pf v ^ 3 = v)
+    (hinv : ∀ x ∈ desired, Pf (a + b * x + c * x ^ 2 + d * x ^ 3) = x)
+    (hin : ∀ x ∈ desired, nth (vs.map Pf) 0 ≤ x ∧ x < nth (vs.map Pf) ((vs.map Pf).length - 1)) :
+    ∃ vtp, v2pRow vs (vs.map Pf) desired = .ok vtp ∧
+      vtp = desired.map (fun x => a + b * x + c * x ^ 2 + d * x ^ 3) ∧ vtp.map Pf = desired := by
+  have hvs : (vs.map Pf).map (fun x => a + b * x + c * x ^ 2 + d * x ^ 3) = vs := by
+    rw [List.map_map]
+    conv_rhs => rw [← List.map_id vs]
+    exact List.map_congr_left fun v hv => hgrid v hv
+  have h := c06_v2p_exact_cubic a b c d (vs.map Pf) desired (by simpa using hn) hs hin
+  rw [hvs] at h
+  refine ⟨_, h, rfl, ?_⟩
+  rw [List.map_map]
+  conv_rhs => rw [← List.map_id desired]
+  exact List.map_congr_left fun x hx => hinv x hx
+
+/-- … and the reported volumes decrease with the requested pressure whenever the inverse isotherm `g` does (requested
+    pressures in increasing order, as `desired_pressures` are) -/
+theorem c06_volume_decreasing_cubic (a b c d : α) (Pf : α → α) (vs desired vtp : List α) (hn : 4 ≤ vs.length)
+    (hs : StrictIncr (vs.map Pf))
+    (hgrid : ∀ v ∈ vs, a + b * Pf v + c * Pf v ^ 2 + d * Pf v ^ 3 = v)
+    (hin : ∀ x ∈ desired, nth (vs.map Pf) 0 ≤ x ∧ x < nth (vs.map Pf) ((vs.map Pf).length - 1))
+    (hanti : ∀ x ∈ desired, ∀ y ∈ desired, x < y →
+      a + b * y + c * y ^ 2 + d * y ^ 3 < a + b * x + c * x ^ 2 + d * x ^ 3)
+    (hsorted : desired.Pairwise (· < ·)) (hv : v2pRow vs (vs.map Pf) desired = .ok vtp) :
+    vtp.Pairwise (· > ·) := by
+  have hvs : (vs.map Pf).map (fun x => a + b * x + c * x ^ 2 + d * x ^ 3) = vs := by
+    rw [List.map_map]
+    conv_rhs => rw [← List.map_id vs]
+    exact List.map_congr_left fun v hv => hgrid v hv
+  have h := c06_v2p_exact_cubic a b c d (vs.map Pf) desired (by simpa using hn) hs hin
+  rw [hvs, hv] at h
+  injection h with h
+  subst h
+  rw [List.pairwise_map]
+  exact hsorted.imp_of_mem fun hx hy hxy => hanti _ hx _ hy hxy
+
+/-- the same for the quantity cij reports, `pressure_base.volumes` = `volumesTp` (all temperatures): isotherm `i` is the
+    function `I.1`, its inverse on the requested pressures the cubic with coefficients `I.2` -/
+theorem c06_volumes_tp_roundtrip_cubic (q : Qha α) (isos : List ((α → α) × α × α × α × α)) (hn : 4 ≤ q.vArray.length)
+    (hP : q.pressuresAu = isos.map fun I => q.vArray.map I.1)
+    (hrow : ∀ I ∈ isos, StrictIncr (q.vArray.map I.1) ∧
+      (∀ v ∈ q.vArray, I.2.1 + I.2.2.1 * I.1 v + I.2.2.2.1 * I.1 v ^ 2 + I.2.2.2.2 * I.1 v ^ 3 = v) ∧
+      (∀ x ∈ q.pArrayAu, I.1 (I.2.1 + I.2.2.1 * x + I.2.2.2.1 * x ^ 2 + I.2.2.2.2 * x ^ 3) = x) ∧
+      ∀ x ∈ q.pArrayAu, nth (q.vArray.map I.1) 0 ≤ x ∧ x < nth (q.vArray.map I.1) ((q.vArray.map I.1).length - 1)) :
+    volumesTp q = .ok (isos.map fun I =>
+        q.pArrayAu.map fun x => I.2.1 + I.2.2.1 * x + I.2.2.2.1 * x ^ 2 + I.2.2.2.2 * x ^ 3) ∧
+      ∀ I ∈ isos, (q.pArrayAu.map fun x => I.2.1 + I.2.2.1 * x + I.2.2.2.1 * x ^ 2 + I.2.2.2.2 * x ^ 3).map I.1
+        = q.pArrayAu := by
+  constructor
+  · unfold volumesTp v2p
+    rw [if_neg (by simp)]
+    rw [hP, List.map_map, List.zip_map']
+    have hm : ∀ I ∈ isos, (fun fp : List α × List α => v2pRow fp.1 fp.2 q.pArrayAu)
+          (((fun _ => q.vArray) ∘ fun I : (α → α) × α × α × α × α => q.vArray.map I.1) I, q.vArray.map I.1) =
+        .ok (q.pArrayAu.map fun x => I.2.1 + I.2.2.1 * x + I.2.2.2.1 * x ^ 2 + I.2.2.2.2 * x ^ 3) := by
+      intro I hI
+      obtain ⟨h1, h2, h3, h4⟩ := hrow I hI
+      obtain ⟨vtp, hv, he, _⟩ := c06_volume_roundtrip_cubic I.2.1 I.2.2.1 I.2.2.2.1 I.2.2.2.2 I.1 q.vArray q.pArrayAu hn
+        h1 h2 h3 h4
+      simp only [Function.comp]
+      rw [hv, he]
+    rw [List.mapM_map]
+    exact mapM_ok _ _ _ hm
+  · intro I hI
+    obtain ⟨_, _, h3, _⟩ := hrow I hI
+    rw [List.map_map]
+    conv_rhs => rw [← List.map_id q.pArrayAu]
+    exact List.map_congr_left fun x hx => h3 x hx
+
+/-- **What is NOT exact**: an isotherm whose PRESSURE is an invertible cubic of the volume (here `P = (6 − V)³`, strictly
+    decreasing; five volumes 5 … 1, pressures 1, 8, 27, 64, 125).  `V` is then the cube root of an affine function of `P`,
+    not a cubic in `P`, and the composed rule does not invert the isotherm: at the requested pressures 2, 10, 30, 100 the
+    reported volumes give back the pressures 1.605…, 10.77…, 30.40…, 90.64…  The error is the interpolation error of
+    `P ↦ V(T,P)` on the tabulated mesh (4th divided difference × node polynomial), monitored by the harness. -/
+theorem c06_roundtrip_inexact_for_cubic_in_V :
+    let Pf : ℚ → ℚ := fun v => (6 - v) ^ 3
+    let vs : List ℚ := [5, 4, 3, 2, 1]
+    vs.map Pf = [1, 8, 27, 64, 125] ∧
+    v2pRow vs (vs.map Pf) [2, 10, 30, 100]
+      = .ok [4325091 / 895622, 3395647 / 895622, 8278243 / 2875418, 41193221 / 27316471] ∧
+    ([4325091 / 895622, 3395647 / 895622, 8278243 / 2875418, 41193221 / 27316471] : List ℚ).map Pf
+      = [1153135922665238721 / 718413126674181848, 7739891078293764125 / 718413126674181848,
+         722764259792036059625 / 23774038475817534632, 1847537249265764889320125 / 20383266238204058755111] ∧
+    ∀ x ∈ ([4325091 / 895622, 3395647 / 895622, 8278243 / 2875418, 41193221 / 27316471] : List ℚ).zip [2, 10, 30, 100],
+      Pf x.1 ≠ x.2 := by
+  decide +kernel
+
+/-- `c06_volume_roundtrip_cubic` on an instance: along the isotherm `V = 10 − P³/8` (so `P = 2·∛(10 − V)`, here given on ℚ
+    only through its values at the six volumes that occur), pressures 0 … 4 at the volumes 10, 79/8, 9, 53/8, 2; requested
+    pressures 1/2 ↦ 639/64 and 3 ↦ 53/8 … -/
+example : v2pRow [(10 : ℚ), 79 / 8, 9, 53 / 8, 2] [0, 1, 2, 3, 4] [1 / 2, 3] = .ok [639 / 64, 53 / 8] ∧
+    (10 : ℚ) - (1 / 2) ^ 3 / 8 = 639 / 64 := by decide +kernel
 
 example : v2pRow [(10 : ℚ), 8, 6, 4, 2] [0, 1, 2, 3, 4] [0, 1/2, 5/2, 7/2] = .ok [10, 9, 5, 3] := by
   decide +kernel
